@@ -193,7 +193,8 @@ class AstAnalyzer:
                     prev = curr
                     # The loop may run zero times: what is live after it is live before it.
                     curr = visit_block(stmt.body, prev).difference({p_loop_var}) | live_out
-                return curr
+                # The loop bound is evaluated once, before the first iteration.
+                return curr | _used_vars(stmt.iter)
             if isinstance(stmt, ast.While):
                 cond_vars = _used_vars(stmt.test)
                 prev = None
